@@ -17,7 +17,7 @@ FAMS = {
     "C08": (["order", "retry", "poll"], ["order", "retry", "poll", "tolerance", "gates"]),
     "C09": (["crash", "crash2"], ["crash", "crash2", "crashchk", "crashchkfn"]),
     "C10": (["crashfn", "crashchkfn", "crash"], ["crash", "crashfn", "crash2", "crash2fn", "crashchk", "crashchkfn", "livecrash"]),
-    "C11": ([], []),
+    "C11": (["aged1"], ["aged1", "aged", "aged2"]),
     "C12": ([], []),
 }
 # property -> shape families used for scenario generation
@@ -143,9 +143,9 @@ def _conf_one(args):
 
 def conformable(trace):
     cfg = trace[0]
-    if cfg.get("mode") in ("api", "resume") or "mshape" not in cfg:
+    if cfg.get("mode") == "api" or "mshape" not in cfg:
         return False
-    if cfg.get("mode") == "crash" and (len(trace) < 2 or trace[1]["ev"] != "Crash"):
+    if cfg.get("mode") in ("crash", "resume") and (len(trace) < 2 or trace[1]["ev"] != "Crash" or not trace[1].get("recovery", True)):
         return False
     for i, e in enumerate(trace):
         if e["ev"] == "Crash" and i == 1:
